@@ -36,6 +36,15 @@ CHECKS = {
             'arithmetic; one alpha (role erased) as in the paper.',
             'translation-validation style value graph with rational normal form and broadcasting roles + degree domain',
             'DESIGN.md 4 C03'),
+    'C04': ('other',
+            'Value graphs of noise_profile, interpol_params, _nf/_calc_nf and the loader\'s estimate_nf_model against the '
+            'documented formulas (ASE = h f B NF; effective gain = min(set gain, p_max - TOTAL input dBm) stored before '
+            'NF and gain profile are computed; padding and NF per amplifier family; two-coil acceptance tests at '
+            'g1a_max/g1a_min on every return); call order in propagate; type_def exhaustiveness loader vs model; band '
+            'demux in __call__; the last refinement step of the gain profile is a secant step toward the effective gain.',
+            'Numeric result of the DGT/ripple iteration beyond its last step and OpenROADM polynomial values are not decided.',
+            'value graph with dB/linear lemmas + CFG ordering + table exhaustiveness',
+            'DESIGN.md 4 C04'),
     'C06': ('other',
             'Value graph of Roadm.propagate in the dB domain proves pch_out = min(target + offset, input - maxloss) '
             'for the egress degree and that both attenuations are >= 0 by form; policy<->carrier-width pairing and '
